@@ -118,7 +118,7 @@ func main() {
 	}
 	wg.Add(1)
 	if len(mutant) > 0 {
-		odir := filepath.Join(root, "build", lid, "_plain")
+		odir := filepath.Join(root, "_build", lid, "_plain")
 		os.RemoveAll(odir)
 		os.MkdirAll(odir, 0o755)
 		ovPath := filepath.Join(odir, "overlay.json")
@@ -131,7 +131,7 @@ func main() {
 	for name, vs := range sp.Variants {
 		out := bin + "." + name
 		os.Remove(out)
-		odir := filepath.Join(root, "build", lid, name)
+		odir := filepath.Join(root, "_build", lid, name)
 		os.RemoveAll(odir)
 		ov := instr.NewOverlay(odir)
 		for k, v := range mutant {
